@@ -2,7 +2,11 @@ package main
 
 import (
 	"bytes"
+	"flag"
 	"fmt"
+	"io"
+	"os"
+	"path/filepath"
 	"strings"
 
 	"github.com/mmcloughlin/avo/attr"
@@ -505,8 +509,12 @@ type c18hist struct {
 	nops int
 
 	// what happened
-	panics     int
-	firstPanic string
+	panics      int
+	firstPanic  string
+	origin      []string // per recorded error: the builder call that reported it
+	nilCalls    int      // calls that were handed a nil argument
+	stop        bool     // no further requests
+	nilPanicked bool     // the call with the nil argument panicked
 
 	// shadow state used to steer generation and to set the finding flags
 	haveFn     bool
@@ -530,6 +538,7 @@ type c18hist struct {
 	f3a, f3b, f4, f9 bool
 
 	pFault     int // per-mille probability that a generated request is made invalid
+	pStub      int // per-mille probability that a name / doc / pragma is made unprintable for the stub file
 	pPassFault int // per-mille probability of a compile-time fault injection
 	negIdx     bool
 	adjDup     bool
@@ -547,16 +556,32 @@ func (h *c18hist) op(toks ...string) {
 }
 
 // call runs one real builder call under recover.
-func (h *c18hist) call(what string, f func()) {
+func (h *c18hist) call(what string, f func()) (panicked bool) {
+	before := h.a.c.VerifErrCount()
 	defer func() {
 		if r := recover(); r != nil {
-			h.panics++
-			if h.firstPanic == "" {
-				h.firstPanic = fmt.Sprintf("%d:%s", h.nops, what)
+			panicked = true
+			if h.nilPanicked {
+				// the call with the nil argument was abandoned half way: what the context does
+				// afterwards is a consequence of that panic, not a separate one
+				h.stats["panic_after_nil_panic"]++
+			} else {
+				h.panics++
+				if h.firstPanic == "" {
+					h.firstPanic = fmt.Sprintf("%d:%s", h.nops, what)
+				}
+				if strings.HasPrefix(what, "nil:") {
+					h.nilPanicked = true
+				}
 			}
+		}
+		// which call reported which message
+		for n := h.a.c.VerifErrCount(); before < n; before++ {
+			h.origin = append(h.origin, what)
 		}
 	}()
 	f()
+	return false
 }
 
 func (h *c18hist) closeFn() {
@@ -595,10 +620,63 @@ func (h *c18hist) noteInstr(ik []int, ek []int) {
 
 func (h *c18hist) fnName() string {
 	h.fnN++
+	if h.r.intn(1000) < h.pStub {
+		h.stats["fn_bad_name"]++
+		return pick(h.r, c18badNames)
+	}
 	if h.r.chance(1, 25) && h.fnN > 2 {
 		return "f1"
 	}
 	return fmt.Sprintf("f%d", h.fnN)
+}
+
+// names that cannot stand after "func" in the stub file (ASCII only: the model's
+// identifier syntax is the ASCII part of Go's)
+var c18badNames = []string{"", "1 f", "a b", "func", "a-b", "9", "f.g", "type"}
+
+// fnTok: the request token(s) for Function(name)
+func c18fnTok(name string) []string {
+	plain := name != ""
+	for _, ch := range name {
+		if !(ch >= 'a' && ch <= 'z' || ch >= '0' && ch <= '9') {
+			plain = false
+		}
+	}
+	if plain {
+		return []string{"fn", name}
+	}
+	return []string{"fnx", hexs(name)}
+}
+
+// texts with a line break followed by something that is not a comment
+var c18brokenLines = []string{"no\nescape", "x\n1+2", "a\n)"}
+
+func (h *c18hist) genDoc(forceNL bool) {
+	if forceNL || h.r.intn(1000) < h.pStub {
+		t := pick(h.r, c18brokenLines)
+		h.op("docnl")
+		h.call("Doc", func() { h.a.Doc("doc line", t) })
+		h.stats["doc_nl"]++
+		return
+	}
+	h.op("doc")
+	h.call("Doc", func() { h.a.Doc("doc line", "more") })
+}
+
+func (h *c18hist) genPragma(forceNL bool) {
+	if forceNL || h.r.intn(1000) < h.pStub {
+		t := pick(h.r, c18brokenLines)
+		h.op("pragmanl")
+		if h.r.chance(1, 2) {
+			h.call("Pragma", func() { h.a.Pragma(t) })
+		} else {
+			h.call("Pragma", func() { h.a.Pragma("nosplit", "arg", t) })
+		}
+		h.stats["pragma_nl"]++
+		return
+	}
+	h.op("pragma")
+	h.call("Pragma", func() { h.a.Pragma("noescape") })
 }
 
 var c18attrs = []int{0, 0, 4, 16, 20, 24, 2, 32, 64, 8, 1, 2048, 128, 4096}
@@ -815,30 +893,61 @@ func (h *c18hist) genInstr(name string, wantValid bool, forceClasses []string, l
 	}
 }
 
-// rawNoBase adds, through Context.Instruction, a MOVQ whose memory operand has no base register.
+// rawNoBase adds, through Context.Instruction, a hand-built MOVQ whose memory operand
+// the generated constructors would not let through: no base register (with or
+// without an index register and scale), or base + index with scale 0.
 func (h *c18hist) rawNoBase(force bool) {
 	dst := h.regOf("r64")
 	i, err := x86.MOVQ(operand.NewStackAddr(0), dst)
 	if err != nil {
 		panic(err)
 	}
+	k := h.r.intn(6)
+	if !force && h.r.chance(1, 3) {
+		k = 6
+	}
+	h.rawMem(i, k)
+}
+
+// rawKind: the k-th shape of rawNoBase
+func (h *c18hist) rawKind(k int) {
+	i, err := x86.MOVQ(operand.NewStackAddr(0), h.regOf("r64"))
+	if err != nil {
+		panic(err)
+	}
+	h.rawMem(i, k)
+}
+
+func (h *c18hist) rawMem(i *ir.Instruction, k int) {
 	var tok string
-	if force || h.r.chance(2, 3) {
-		m := operand.Mem{Disp: 8}
+	ek := []int{1}
+	set := func(m operand.Mem, t string, kinds ...int) {
 		i.Operands[0] = m
 		i.Inputs[0] = m
-		tok = "m:-:-:0"
-	} else {
+		tok = t
+		ek = append(ek, kinds...)
+	}
+	switch k {
+	case 0, 1:
+		set(operand.Mem{Disp: 8}, "m:-:-:0")
+	case 2:
+		sc := uint8(1 << h.r.intn(4))
+		set(operand.Mem{Index: h.regOf("r64"), Scale: sc}, fmt.Sprintf("m:-:1:%d", sc), 1)
+	case 3:
+		set(operand.Mem{Disp: 16, Index: h.regOf("r64"), Scale: 1}, "m:-:1:1", 1)
+	case 4:
+		set(operand.Mem{Index: h.regOf("r64"), Scale: 0}, "m:-:1:0", 1)
+	case 5:
+		set(operand.Mem{Base: h.regOf("r64"), Index: h.regOf("r64"), Scale: 0}, "m:1:1:0", 1, 1)
+	default:
 		tok = "m:0:-:0"
+		ek = append(ek, 0)
 	}
 	h.op("raw", "0", "0", "2", tok, "r:1")
 	h.call("Instruction", func() { h.a.Instruction(i) })
-	if tok == "m:0:-:0" {
-		h.noteInstr(nil, []int{0, 1})
-	} else {
-		h.noteInstr(nil, []int{1})
-	}
+	h.noteInstr(nil, ek)
 	h.stats["raw"]++
+	h.stats["raw_"+tok]++
 }
 
 func (h *c18hist) genLabel(name string) {
@@ -877,6 +986,20 @@ func (h *c18hist) fixups() {
 func (h *c18hist) genFunction() {
 	h.fixups()
 	name := h.fnName()
+	if h.r.intn(1000) < h.pFault && h.r.chance(1, 5) {
+		// Implement(name) on a context without a package: an error, no function is started
+		name = fmt.Sprintf("f%d", h.fnN)
+		h.op("impl", name)
+		h.call("Implement", func() {
+			if h.a.pkg {
+				build.Implement(name)
+			} else {
+				h.a.c.Implement(name)
+			}
+		})
+		h.stats["implement"]++
+		return
+	}
 	switch {
 	case h.a.pkg && h.r.chance(1, 2):
 		// TEXT(name, attrs, signature) = Function + Attributes + SignatureExpr
@@ -890,7 +1013,7 @@ func (h *c18hist) genFunction() {
 			s = c18genSig(h.r)
 			expr = s.goSrc()
 		}
-		h.op("fn", name)
+		h.op(c18fnTok(name)...)
 		h.openFn()
 		h.op("attr", itoa(at))
 		if bad {
@@ -902,7 +1025,7 @@ func (h *c18hist) genFunction() {
 		h.call("TEXT", func() { build.TEXT(name, attr.Attribute(at), expr) })
 		h.stats["TEXT"]++
 	default:
-		h.op("fn", name)
+		h.op(c18fnTok(name)...)
 		h.call("Function", func() { h.a.Function(name) })
 		h.openFn()
 	}
@@ -1503,7 +1626,8 @@ func (h *c18hist) genPressure(limits map[int]int) {
 	if h.r.intn(1000) < h.pPassFault || h.r.intn(1000) < h.pPassFault {
 		n = lim + 1 + h.r.intn(3)
 	}
-	name := h.fnName()
+	h.fnN++
+	name := fmt.Sprintf("f%d", h.fnN)
 	h.op("press", name, itoa(kind), itoa(n))
 	h.call("pressure", func() {
 		h.a.Function(name)
@@ -1577,10 +1701,111 @@ func (h *c18hist) genSingle(limits map[int]int) {
 		name := pick(h.r, []string{"ADDQ", "MOVQ", "LEAQ", "MOVUPS"})
 		h.genInstr(name, true, map[string][]string{
 			"ADDQ": {"mx0", "r64"}, "MOVQ": {"r64", "mx0"}, "LEAQ": {"mx0", "r64"}, "MOVUPS": {"mx0", "xmm"}}[name], "")
-	default:
+	case 7:
 		h.pPassFault = 1000
 		h.genPressure(limits)
 		h.pPassFault = 0
+	case 8:
+		h.genStubBreak()
+	default:
+		h.genNil(h.r.intn(len(c18nilKinds)))
+	}
+}
+
+// genStubBreak: one request that makes the stub text of a function unprintable.
+func (h *c18hist) genStubBreak() {
+	switch h.r.intn(4) {
+	case 0, 1:
+		save := h.pStub
+		h.pStub = 1000
+		h.genFunction()
+		h.pStub = save
+		h.genInstr("RET", true, nil, "")
+	case 2:
+		h.genPragma(true)
+	default:
+		h.genDoc(true)
+	}
+	h.stats["inject_stubbreak"]++
+}
+
+// builder calls handed a nil argument (same order as nilKinds in Drv/C18.lean)
+var c18nilKinds = []string{"Load.src", "Load.dst", "Store.src", "Store.dst", "Dereference", "AddDatum", "AppendDatum",
+	"Constraints", "Constraint", "Instruction", "Signature"}
+
+// genNil issues one builder call with a nil argument (everything else about the call is valid).
+func (h *c18hist) genNil(k int) {
+	kind := c18nilKinds[k]
+	u64 := &c18ty{k: "uint", size: 8}
+	primSlot := func() int {
+		// a parameter that resolves to a primitive
+		sg := &c18sig{params: []c18var{{"x", u64}}, results: []c18var{{"r", u64}}}
+		h.op(sg.toks()...)
+		h.call("SignatureExpr", func() { h.a.SignatureExpr(sg.goSrc()) })
+		h.sig = sg
+		if kind == "Store.src" {
+			h.scriptRootName(true, "r", c18comp{u64, false})
+		} else {
+			h.scriptRootName(false, "x", c18comp{u64, false})
+		}
+		return len(h.comps) - 1
+	}
+	switch kind {
+	case "AddDatum", "AppendDatum":
+		if !h.haveGlob {
+			h.genGlob()
+		}
+	case "Constraints", "Constraint":
+	default:
+		if !h.haveFn {
+			h.genFunction()
+		}
+	}
+	var f func()
+	switch kind {
+	case "Load.src":
+		r := h.regOf("r64")
+		f = func() { h.a.Load(nil, r) }
+	case "Load.dst":
+		c := h.comps[primSlot()]
+		f = func() { h.a.Load(c, nil) }
+	case "Store.src":
+		c := h.comps[primSlot()]
+		f = func() { h.a.Store(nil, c) }
+	case "Store.dst":
+		r := h.regOf("r64")
+		f = func() { h.a.Store(r, nil) }
+	case "Dereference":
+		f = func() { h.a.Dereference(nil) }
+	case "AddDatum":
+		off := h.gsize
+		f = func() { h.a.AddDatum(off, nil) }
+	case "AppendDatum":
+		f = func() { h.a.AppendDatum(nil) }
+	case "Constraints":
+		f = func() { h.a.Constraints(nil) }
+	case "Constraint":
+		f = func() { h.a.Constraint(nil) }
+	case "Instruction":
+		f = func() { h.a.Instruction(nil) }
+	case "Signature":
+		f = func() { h.a.c.Signature(nil) }
+	}
+	h.op("nil", kind)
+	h.nilCalls++
+	h.call("nil:"+kind, f)
+	h.stats["nil_"+kind]++
+	if kind == "Signature" {
+		// the function now has a nil signature: every later Param/Return call would panic for
+		// the same reason; the history ends here (Main is still run)
+		h.stop = true
+	}
+	if h.nilPanicked {
+		// the call was abandoned half way; how much of its effect is in place is not pinned down by
+		// anything (before or after the mutation of the section, say), so no further builder call
+		// is issued on this context: Result() and Main are still run, a panic there is attributed
+		// to this call
+		h.stop = true
 	}
 }
 
@@ -1643,7 +1868,7 @@ func (h *c18hist) labelFault(k int) {
 func (h *c18hist) genImplicitOnly() {
 	h.fixups()
 	name := h.fnName()
-	h.op("fn", name)
+	h.op(c18fnTok(name)...)
 	h.call("Function", func() { h.a.Function(name) })
 	h.openFn()
 	if h.r.chance(1, 2) {
@@ -1691,13 +1916,11 @@ func (h *c18hist) genOne(limits map[int]int) {
 		}
 	case w < 90:
 		if needFn() {
-			h.op("doc")
-			h.call("Doc", func() { h.a.Doc("doc line", "more") })
+			h.genDoc(false)
 		}
 	case w < 100:
 		if needFn() {
-			h.op("pragma")
-			h.call("Pragma", func() { h.a.Pragma("noescape") })
+			h.genPragma(false)
 		}
 	case w < 140:
 		if needFn() {
@@ -1741,7 +1964,17 @@ func (h *c18hist) genOne(limits map[int]int) {
 	case w < 480:
 		if needFn() {
 			h.op("com")
-			h.call("Comment", func() { h.a.Comment("a comment") })
+			if h.r.chance(1, 3) {
+				h.call("Commentf", func() {
+					if h.a.pkg {
+						build.Commentf("comment %d of %s", 3, "x")
+					} else {
+						h.a.c.Commentf("comment %d of %s", 3, "x")
+					}
+				})
+			} else {
+				h.call("Comment", func() { h.a.Comment("a comment") })
+			}
 		}
 	case w < 560:
 		if needFn() {
@@ -1856,11 +2089,46 @@ var c18scripts = []func(h *c18hist){
 	},
 	// an instruction before any function
 	func(h *c18hist) { h.genInstr("RET", true, nil, ""); h.scriptFn(nil); h.genInstr("RET", true, nil, "") },
+	// stub printer fails after the assembly was written: Function(""), Function("1 f"), Pragma("no\nescape"), Doc
+	func(h *c18hist) { h.scriptFnName(""); h.genInstr("RET", true, nil, "") },
+	func(h *c18hist) { h.scriptFnName("1 f"); h.genInstr("RET", true, nil, "") },
+	func(h *c18hist) { h.scriptFn(nil); h.genPragma(true); h.genInstr("RET", true, nil, "") },
+	func(h *c18hist) { h.scriptFn(nil); h.genDoc(true); h.genInstr("RET", true, nil, "") },
+	// … but not when a later Doc replaces the broken one, and not when Compile fails first
+	func(h *c18hist) { h.scriptFn(nil); h.genDoc(true); h.genDoc(false); h.genInstr("RET", true, nil, "") },
+	func(h *c18hist) { h.scriptFnName("a b"); h.labelFault(2); h.genInstr("RET", true, nil, "") },
+	// base-less memory operand with index and scale, through Context.Instruction
+	func(h *c18hist) { h.scriptFn(nil); h.rawKind(2); h.genInstr("RET", true, nil, "") },
+	func(h *c18hist) { h.scriptFn(nil); h.rawKind(3); h.genInstr("RET", true, nil, "") },
+	func(h *c18hist) { h.scriptFn(nil); h.rawKind(5); h.genInstr("RET", true, nil, "") },
+	// Implement without Package
+	func(h *c18hist) {
+		h.op("impl", "f1")
+		h.call("Implement", func() { h.a.c.Implement("f1") })
+	},
+	// one call with a nil argument each
+	c18nilScript(0), c18nilScript(1), c18nilScript(2), c18nilScript(3), c18nilScript(4), c18nilScript(5),
+	c18nilScript(6), c18nilScript(7), c18nilScript(8), c18nilScript(9), c18nilScript(10),
+}
+
+func c18nilScript(k int) func(h *c18hist) {
+	return func(h *c18hist) {
+		h.scriptFn(nil)
+		h.genInstr("RET", true, nil, "")
+		h.genNil(k)
+	}
+}
+
+func (h *c18hist) scriptFnName(name string) {
+	h.fnN++
+	h.op(c18fnTok(name)...)
+	h.call("Function", func() { h.a.Function(name) })
+	h.openFn()
 }
 
 func (h *c18hist) scriptFn(s *c18sig) {
 	name := h.fnName()
-	h.op("fn", name)
+	h.op(c18fnTok(name)...)
 	h.call("Function", func() { h.a.Function(name) })
 	h.openFn()
 	if s != nil {
@@ -1918,10 +2186,11 @@ func (h *c18hist) randomBody(limits map[int]int) {
 		h.genFunction()
 	}
 	h.singleAt = h.r.intn(target)
-	for h.nops < target {
+	for h.nops < target && !h.stop {
 		if h.single > 0 && h.nops >= h.singleAt {
 			h.genSingle(limits)
 			h.single = 0
+			continue
 		}
 		h.genOne(limits)
 	}
@@ -1931,52 +2200,268 @@ func (h *c18hist) randomBody(limits map[int]int) {
 }
 
 // ---------------------------------------------------------------- classification of messages
+//
+// The class of a message is not taken from its wording: at start-up every class
+// is provoked once, by a canonical request on a scratch context, and the text it
+// yields — with quoted parts and numbers removed — is what later messages of
+// that class are recognised by.  A reworded message is reworded in the
+// calibration too.  Messages of the Go parser / type checker (signature
+// expressions) are recognised by the call that reported them; anything else is
+// the distinct class "unknown".
 
-var c18msgClasses = []struct{ sub, tag string }{
-	{"no active function", "nofunc"},
-	{"no active global", "noglobal"},
-	{"bad operands", "badops"},
-	{"unknown variable", "unkvar"},
-	{"index out of range", "idxrange"},
-	{"component is not primitive", "notprim"},
-	{"not pointer type", "notptr"},
-	{"only slices and strings have base pointers", "nobase"},
-	{"only slices and strings have length fields", "nolen"},
-	{"only slices have capacity fields", "nocap"},
-	{"only complex types have real values", "noreal"},
-	{"only complex types have imaginary values", "noimag"},
-	{"not array type", "notarray"},
-	{"array index out of bounds", "arrbounds"},
-	{"not struct type", "notstruct"},
-	{"struct does not have field", "nofield"},
-	{"could not deduce mov instruction", "mov"},
-	{"overlaps existing datum", "overlap"},
-	{"invalid term", "constraint"},
-	{"at most one '!' allowed", "constraint"},
-	{"empty tag name", "constraint"},
-	{"disallowed in tags", "constraint"},
-	{"empty constraint", "constraint"},
-	{"empty option", "constraint"},
-}
-
-func c18classify(msg string) string {
-	for _, c := range c18msgClasses {
-		if strings.Contains(msg, c.sub) {
-			return c.tag
+func c18skeleton(msg string) string {
+	var out []byte
+	var quote byte
+	for i := 0; i < len(msg); i++ {
+		ch := msg[i]
+		switch {
+		case quote != 0:
+			if ch == '\\' && i+1 < len(msg) {
+				i++
+			} else if ch == quote {
+				quote = 0
+				out = append(out, ch)
+			}
+		case ch == '"' || ch == '\'':
+			quote = ch
+			out = append(out, ch)
+		case ch >= '0' && ch <= '9':
+		default:
+			out = append(out, ch)
 		}
 	}
-	// everything else a builder call can report comes from the Go type checker / parser
-	return "sig"
+	return strings.TrimSpace(string(out))
 }
 
-var c18passClasses = []struct{ sub, tag string }{
-	{"missing base register", "membase"},
-	{"index register with scale 0", "memscale"},
-	{"duplicate label", "duplabel"},
-	{"function ends with label", "endlabel"},
-	{"unknown label", "unklabel"},
-	{"failed to allocate registers", "alloc"},
-	{"impossible register allocation", "alloc"},
+type c18calib struct {
+	msg, pass map[string]string // skeleton -> class tag
+	got       []string          // what was calibrated, in the fixed order of the witnesses
+}
+
+var c18cal *c18calib
+
+func c18mainOn(ctx *build.Context, passes ...pass.Interface) (int, string) {
+	var diag bytes.Buffer
+	status := -1
+	func() {
+		defer func() { _ = recover() }()
+		status = build.Main(&build.Config{ErrOut: &diag, Passes: passes}, ctx)
+	}()
+	return status, diag.String()
+}
+
+func c18calibrate(limits map[int]int) *c18calib {
+	cal := &c18calib{msg: map[string]string{}, pass: map[string]string{}}
+	u64 := "func(x uint64)"
+	withParam := func(sig string, f func(c *build.Context, x gotypes.Component)) func(c *build.Context) {
+		return func(c *build.Context) {
+			c.Function("f")
+			c.SignatureExpr(sig)
+			f(c, c.Param("x"))
+		}
+	}
+	load := func(nav func(x gotypes.Component) gotypes.Component) func(c *build.Context, x gotypes.Component) {
+		return func(c *build.Context, x gotypes.Component) { c.Load(nav(x), c.GP64()) }
+	}
+	cons := func(terms ...string) func(c *build.Context) {
+		return func(c *build.Context) {
+			var o buildtags.Option
+			for _, t := range terms {
+				o = append(o, buildtags.Term(t))
+			}
+			c.Constraint(buildtags.Constraint{o})
+		}
+	}
+	builder := []struct {
+		tag string
+		f   func(c *build.Context)
+	}{
+		{"nofunc", func(c *build.Context) { c.RET() }},
+		{"noglobal", func(c *build.Context) { c.AppendDatum(operand.U8(1)) }},
+		{"badops", func(c *build.Context) { c.Function("f"); c.ADDQ(reg.X0, reg.X1) }},
+		{"unkvar", func(c *build.Context) { c.Function("f"); c.SignatureExpr(u64); c.Load(c.Param("nope"), c.GP64()) }},
+		{"idxrange", func(c *build.Context) { c.Function("f"); c.SignatureExpr(u64); c.Load(c.ParamIndex(5), c.GP64()) }},
+		{"notprim", withParam("func(x string)", load(func(x gotypes.Component) gotypes.Component { return x }))},
+		{"notptr", withParam(u64, func(c *build.Context, x gotypes.Component) { c.Load(x.Dereference(c.GP64()), c.GP64()) })},
+		{"nobase", withParam(u64, load(func(x gotypes.Component) gotypes.Component { return x.Base() }))},
+		{"nolen", withParam(u64, load(func(x gotypes.Component) gotypes.Component { return x.Len() }))},
+		{"nocap", withParam(u64, load(func(x gotypes.Component) gotypes.Component { return x.Cap() }))},
+		{"noreal", withParam(u64, load(func(x gotypes.Component) gotypes.Component { return x.Real() }))},
+		{"noimag", withParam(u64, load(func(x gotypes.Component) gotypes.Component { return x.Imag() }))},
+		{"notarray", withParam(u64, load(func(x gotypes.Component) gotypes.Component { return x.Index(0) }))},
+		{"arrbounds", withParam("func(x [2]uint64)", load(func(x gotypes.Component) gotypes.Component { return x.Index(5) }))},
+		{"notstruct", withParam(u64, load(func(x gotypes.Component) gotypes.Component { return x.Field("a") }))},
+		{"nofield", withParam("func(x struct{a uint64})", load(func(x gotypes.Component) gotypes.Component { return x.Field("zz") }))},
+		{"mov", withParam(u64, func(c *build.Context, x gotypes.Component) { c.Load(x, c.YMM()) })},
+		{"overlap", func(c *build.Context) {
+			c.StaticGlobal("d")
+			c.AddDatum(0, operand.U64(1))
+			c.AddDatum(4, operand.U64(2))
+		}},
+		{"constraint", cons("!!x")},
+		{"constraint", cons("!")},
+		{"constraint", cons("a-b")},
+		{"constraint", cons()},
+		{"constraint", func(c *build.Context) { c.Constraint(buildtags.Constraint{}) }},
+		{"nopkg", func(c *build.Context) { c.Implement("f") }},
+	}
+	for _, w := range builder {
+		c := build.NewContext()
+		func() {
+			defer func() { _ = recover() }()
+			w.f(c)
+		}()
+		if msgs := c.VerifErrMessages(); len(msgs) == 1 {
+			cal.msg[c18skeleton(msgs[0])] = w.tag
+			cal.got = append(cal.got, w.tag)
+		} else {
+			cal.got = append(cal.got, fmt.Sprintf("%s!%d", w.tag, len(msgs)))
+		}
+	}
+	rawMov := func(c *build.Context, m operand.Mem) {
+		i, err := x86.MOVQ(operand.NewStackAddr(0), reg.RAX)
+		if err != nil {
+			panic(err)
+		}
+		i.Operands[0], i.Inputs[0] = m, m
+		c.Instruction(i)
+	}
+	press := func(kind int) func(c *build.Context) {
+		return func(c *build.Context) {
+			n := limits[kind] + 1
+			var vs []reg.Register
+			for i := 0; i < n; i++ {
+				switch kind {
+				case 1:
+					v := c.GP64()
+					vs = append(vs, v)
+					c.MOVQ(operand.U32(uint32(i)), v)
+				case 3:
+					v := c.K()
+					vs = append(vs, v)
+					c.KMOVQ(operand.NewStackAddr(8*i), v)
+				default:
+					v := c.XMM()
+					vs = append(vs, v)
+					c.MOVUPS(operand.NewStackAddr(16*i), v)
+				}
+			}
+			for i := 1; i < n; i++ {
+				switch kind {
+				case 1:
+					c.ADDQ(vs[i], vs[0])
+				case 3:
+					c.KORQ(vs[i], vs[0], vs[0])
+				default:
+					c.PADDD(vs[i], vs[0])
+				}
+			}
+		}
+	}
+	passes := []struct {
+		tag string
+		f   func(c *build.Context)
+	}{
+		{"membase", func(c *build.Context) { rawMov(c, operand.Mem{Disp: 8}) }},
+		{"memscale", func(c *build.Context) { c.MOVQ(operand.Mem{Base: reg.RAX, Index: reg.RCX, Scale: 0}, reg.RBX) }},
+		{"duplabel", func(c *build.Context) {
+			c.JNE(operand.LabelRef("a"))
+			c.Label("a")
+			c.NOP()
+			c.Label("a")
+		}},
+		{"endlabel", func(c *build.Context) { c.JMP(operand.LabelRef("a")); c.NOP(); c.Label("a") }},
+		{"unklabel", func(c *build.Context) { c.JMP(operand.LabelRef("a")) }},
+		{"alloc", press(1)},
+		{"alloc", press(2)},
+		{"alloc", press(3)},
+	}
+	for _, w := range passes {
+		c := build.NewContext()
+		c.Function("f")
+		func() {
+			defer func() { _ = recover() }()
+			w.f(c)
+			if w.tag != "endlabel" {
+				c.RET()
+			}
+		}()
+		st, diag := c18mainOn(c, pass.Compile)
+		if st == 1 && len(c.VerifErrMessages()) == 0 && strings.Count(diag, "\n") == 1 {
+			cal.pass[c18skeleton(diag)] = w.tag
+			cal.got = append(cal.got, w.tag)
+		} else {
+			cal.got = append(cal.got, w.tag+"!")
+		}
+	}
+	return cal
+}
+
+// classify: by calibrated text; messages of SignatureExpr/TEXT/Signature that are
+// none of the calibrated ones come from the Go parser / type checker.
+func c18classify(msg, origin string) string {
+	if t, ok := c18cal.msg[c18skeleton(msg)]; ok {
+		return t
+	}
+	switch origin {
+	case "SignatureExpr", "TEXT":
+		return "sig"
+	}
+	return "unknown"
+}
+
+func c18classifyPass(diag string) string {
+	if t, ok := c18cal.pass[c18skeleton(diag)]; ok {
+		return t
+	}
+	return "other"
+}
+
+// c18scratch: directory for the files of the Flags route (next to the -ops file)
+var c18scratch string
+
+// c18mainViaFlags runs build.Main with the Config that build.NewFlags(...).Config() yields for
+// "-out F1 -stubs F2 -log F3 -e -pkg p" and reads the three files back into the buffers.
+func c18mainViaFlags(ctx *build.Context, asm, stubs, diag *bytes.Buffer, stats map[string]int) int {
+	names := []string{filepath.Join(c18scratch, "out.s"), filepath.Join(c18scratch, "stubs.go"), filepath.Join(c18scratch, "log.txt")}
+	// a previous generation's output is in place
+	for _, n := range names[:2] {
+		if err := os.WriteFile(n, []byte("STALE\n"), 0o644); err != nil {
+			panic("harness: " + err.Error())
+		}
+	}
+	fs := flag.NewFlagSet("c18", flag.ContinueOnError)
+	fl := build.NewFlags(fs)
+	if err := fs.Parse([]string{"-out", names[0], "-stubs", names[1], "-log", names[2], "-e", "-pkg", "p"}); err != nil {
+		panic("harness: " + err.Error())
+	}
+	cfg := fl.Config()
+	defer func() {
+		// Output passes close their files only when they ran to completion
+		for _, p := range cfg.Passes {
+			if o, ok := p.(*pass.Output); ok {
+				_ = o.Writer.Close()
+			}
+		}
+		if c, ok := cfg.ErrOut.(io.Closer); ok {
+			_ = c.Close()
+		}
+		for i, b := range []*bytes.Buffer{asm, stubs, diag} {
+			data, err := os.ReadFile(names[i])
+			if err == nil {
+				b.Write(data)
+			}
+		}
+	}()
+	status := build.Main(cfg, ctx)
+	if status != 0 {
+		// observation only (outside the property's observation points): the output files were
+		// opened — and truncated — when the flags were parsed
+		if fi, err := os.Stat(names[0]); err == nil && fi.Size() == 0 {
+			stats["flags_failure_truncated_previous_output"]++
+		}
+	}
+	return status
 }
 
 type nopCloser struct{ *bytes.Buffer }
@@ -2015,23 +2500,36 @@ func c18run(r *rng, limits map[int]int, stats map[string]int, script func(h *c18
 	// distribution of histories
 	mode := r.intn(100)
 	switch {
-	case mode < 30: // valid
+	case mode < 26: // valid
 		stats["mode_valid"]++
-	case mode < 45: // valid but for one compile-time fault
+	case mode < 41: // valid but for one compile-time fault
 		h.single = 1 + r.intn(7)
 		if h.single == 4 && !r.chance(1, 4) {
 			h.single = 1 + r.intn(3)
 		}
 		stats[fmt.Sprintf("mode_single_pass_fault_%d", h.single)]++
-	case mode < 70:
+	case mode < 46: // valid but for one request that makes a stub unprintable
+		h.single = 8
+		stats["mode_single_stub_break"]++
+	case mode < 52: // valid but for one call with a nil argument
+		h.single = 9
+		stats["mode_single_nil_argument"]++
+	case mode < 72:
 		h.pFault = pick(r, []int{20, 60, 150, 300})
+		if r.chance(1, 4) {
+			h.pStub = 40
+		}
 		stats["mode_builder_faults"]++
 	case mode < 90:
 		h.pPassFault = pick(r, []int{60, 150, 400})
+		if r.chance(1, 4) {
+			h.pStub = 40
+		}
 		stats["mode_pass_faults"]++
 	default:
 		h.pFault = pick(r, []int{30, 100})
 		h.pPassFault = pick(r, []int{100, 300})
+		h.pStub = pick(r, []int{0, 40})
 		stats["mode_mixed"]++
 	}
 	if h.pFault > 0 && r.chance(1, 3) {
@@ -2058,12 +2556,14 @@ func c18run(r *rng, limits map[int]int, stats map[string]int, script func(h *c18
 	h.errc = gotypes.NewSignatureVoid().Params().Lookup("harness-placeholder")
 
 	if script != nil {
-		h.pFault, h.pPassFault, h.single = 0, 0, 0
+		h.pFault, h.pPassFault, h.pStub, h.single = 0, 0, 0, 0
 		script(h)
 	} else {
 		h.randomBody(limits)
 	}
-	h.fixups()
+	if !h.nilPanicked {
+		h.fixups()
+	}
 	h.closeFn()
 
 	hdr := []string{"route=" + route, "f3a=" + c18bit(h.f3a), "f3b=" + c18bit(h.f3b), "f4=" + c18bit(h.f4), "f9=" + c18bit(h.f9), "n=" + itoa(h.nops)}
@@ -2073,8 +2573,12 @@ func c18run(r *rng, limits map[int]int, stats map[string]int, script func(h *c18
 	msgs := ctx.VerifErrMessages()
 	var resp []string
 	resp = append(resp, "e", itoa(len(msgs)))
-	for _, m := range msgs {
-		resp = append(resp, c18classify(m))
+	for i, m := range msgs {
+		org := ""
+		if i < len(h.origin) {
+			org = h.origin[i]
+		}
+		resp = append(resp, c18classify(m, org))
 	}
 	var file *ir.File
 	var rerr error
@@ -2126,18 +2630,19 @@ func c18run(r *rng, limits map[int]int, stats map[string]int, script func(h *c18
 	}
 	status := -1
 	builderPanics := h.panics
-	h.call("Main", func() { status = build.Main(cfg, ctx) })
-	mainPanicked := h.panics > builderPanics
+	viaFlags := script == nil && c18scratch != "" && r.chance(1, 8)
+	var mainPanicked bool
+	if viaFlags {
+		// the configuration build.Generate uses: build.NewFlags on a private FlagSet, -out/-stubs/-log files, -e
+		stats["main_via_flags"]++
+		mainPanicked = h.call("Main", func() { status = c18mainViaFlags(ctx, &asm, &stubs, &diag, stats) })
+	} else {
+		mainPanicked = h.call("Main", func() { status = build.Main(cfg, ctx) })
+	}
 	diagLines := strings.Count(diag.String(), "\n")
 	perr := "-"
 	if len(msgs) == 0 && status != 0 && !mainPanicked {
-		perr = "other"
-		for _, c := range c18passClasses {
-			if strings.Contains(diag.String(), c.sub) {
-				perr = c.tag
-				break
-			}
-		}
+		perr = c18classifyPass(diag.String())
 	}
 	st := "0"
 	if status != 0 {
@@ -2188,10 +2693,18 @@ func c18run(r *rng, limits map[int]int, stats map[string]int, script func(h *c18
 		out.class = "panic"
 	case len(msgs) > 0:
 		out.class = "builder_error"
+	case status != 0 && asm.Len() > 0:
+		out.class = "output_pass_error"
 	case status != 0:
 		out.class = "pass_error_" + perr
 	default:
 		out.class = "ok"
+	}
+	if h.nilCalls > 0 {
+		// what a call with a nil argument does is not pinned down beyond "no panic":
+		// only the acceptor judges such a history
+		out.req, out.mainReq, out.maxReq = "", "", ""
+		out.class = "nil_" + out.class
 	}
 	return out
 }
@@ -2220,6 +2733,13 @@ func init() {
 			limits[int(k)] = len(ids)
 		}
 		o.emit("c18lim", fmt.Sprintf("%d %d %d", limits[1], limits[2], limits[3]))
+		c18scratch = filepath.Join(filepath.Dir(*f.ops), fmt.Sprintf("c18files-%d", os.Getpid()))
+		if err := os.MkdirAll(c18scratch, 0o755); err != nil {
+			return err
+		}
+		defer os.RemoveAll(c18scratch)
+		c18cal = c18calibrate(limits)
+		o.emit("c18cal", strings.Join(c18cal.got, " "))
 		stats := map[string]int{}
 		classes := map[string]int{}
 		sizes := map[string]int{}
@@ -2230,14 +2750,16 @@ func init() {
 				script = c18scripts[k]
 			}
 			res := c18run(r.fork(), limits, stats, script)
-			o.emit(res.req, res.resp)
-			o.emit(res.mainReq, res.mainResp)
+			if res.req != "" {
+				o.emit(res.req, res.resp)
+				o.emit(res.mainReq, res.mainResp)
+			}
 			o.emit(res.acceptReq, "ok")
 			if res.maxReq != "" {
 				o.emit(res.maxReq, res.maxResp)
 			}
 			classes[res.class]++
-			n := strings.Count(res.req, " ")
+			n := strings.Count(res.acceptReq, " ")
 			switch {
 			case n < 40:
 				sizes["tokens<40"]++
